@@ -91,7 +91,8 @@ class Prop:
     exhaustive_note: str = ""
     canon_equal: Optional[Callable[[Case, str, str], bool]] = None  # impl vs model comparison
     search_budget_factor: int = 10
-    case_timeout: int = 120                 # seconds per case on the implementation side
+    case_timeout: int = 120                           # seconds per case on the implementation side
+    known_diffs_binding: bool = False                 # model/impl differences stay binding inside an open finding
     driver: str = "ofdrv_per"               # lean_exe target serving this property's protocol lines
 
 
@@ -453,8 +454,9 @@ def run_check(modname: str, tier: str, seed: int, replay: Optional[str] = None) 
             else:
                 known_seen.setdefault(in_known["id"], []).append(o)
         if drv_ok and not eq(o.case, o.impl, o.model):
-            if in_known is not None:
-                continue               # inside an open finding only the oracle speaks
+            if in_known is not None and not prop.known_diffs_binding:
+                continue               # inside an open finding only the oracle speaks (the model states the
+                                       # intended behaviour there); a model that mirrors the code stays binding
             (diffs if o.case.claimed else unclaimed).append(o)
     corr_ok = drv_ok and not diffs
 
